@@ -141,17 +141,10 @@ var (
 	tmpSeen  = map[string]bool{}
 )
 
-func coqBytes(b []byte) string {
-	if len(b) == 0 {
-		return "[]"
-	}
-	if n, ok := blobName[string(b)]; ok {
-		return n
-	}
+func blobLiteral(b []byte) string {
 	var sb strings.Builder
-	name := fmt.Sprintf("b'%d", len(blobName))
 	// words in chunks of 1000 (Coq's parser overflows its stack on one list literal with tens of thousands of items)
-	fmt.Fprintf(&sb, "Definition %s : list N := ub %d (concat [[", name, len(b))
+	fmt.Fprintf(&sb, "(ub %d (concat [[", len(b))
 	nw := 0
 	for i := 0; i < len(b); i += 7 {
 		var w uint64
@@ -169,10 +162,58 @@ func coqBytes(b []byte) string {
 		fmt.Fprintf(&sb, "%d", w)
 		nw++
 	}
-	sb.WriteString("]]%uint63).")
-	curRun.Imports = append(curRun.Imports, sb.String())
+	sb.WriteString("]]%uint63))")
+	return sb.String()
+}
+
+// big blobs are bound by a `let` at the head of the case that uses them (so only the shard holding that case carries
+// them); small ones are interned once per shard through Run.Imports.
+const bigBlob = 4096
+
+var (
+	caseBlobs     map[string]string // blob -> local name, for the case being rendered
+	caseBlobOrder []string
+)
+
+func coqBytes(b []byte) string {
+	if len(b) == 0 {
+		return "[]"
+	}
+	if len(b) > bigBlob {
+		if n, ok := caseBlobs[string(b)]; ok {
+			return n
+		}
+		if caseBlobs == nil {
+			caseBlobs = map[string]string{}
+		}
+		n := fmt.Sprintf("B'%d", len(caseBlobs))
+		caseBlobs[string(b)] = n
+		caseBlobOrder = append(caseBlobOrder, string(b))
+		return n
+	}
+	if n, ok := blobName[string(b)]; ok {
+		return n
+	}
+	name := fmt.Sprintf("b'%d", len(blobName))
+	curRun.Imports = append(curRun.Imports, fmt.Sprintf("Definition %s : list N := %s.", name, blobLiteral(b)))
 	blobName[string(b)] = name
 	return name
+}
+
+// addCase adds one Coq case, binding the big blobs its term refers to.
+func addCase(run *vh.Run, term string, js any, nontrivial bool) {
+	if len(caseBlobOrder) > 0 {
+		var sb strings.Builder
+		sb.WriteString("(")
+		for _, b := range caseBlobOrder {
+			fmt.Fprintf(&sb, "let %s := %s in\n ", caseBlobs[b], blobLiteral([]byte(b)))
+		}
+		sb.WriteString(term)
+		sb.WriteString(")")
+		term = sb.String()
+	}
+	caseBlobs, caseBlobOrder = nil, nil
+	run.Add(term, js, nontrivial)
 }
 
 func coqOp(o FsOp) string {
@@ -369,7 +410,7 @@ func crashCase(t *testing.T, run *vh.Run, r *vh.Rand, store int, target string, 
 		term := fmt.Sprintf("CCrash %d %s %s %s\n  %s\n  [%s]", store, vh.Str(target), oldTerm, coqBytes(nw), coqOps(ops), strings.Join(terms[lo:hi], ";\n   "))
 		js := Case{Kind: "crash", Store: store, Target: target, Old: old, OldPresent: oldPresent, New: nw, Ops: ops, Points: pts[lo:hi],
 			OldCanon: oldCanon, NewCanon: newCanon}
-		run.Add(term, js, hi-lo > 3)
+		addCase(run, term, js, hi-lo > 3)
 	}
 }
 
@@ -500,7 +541,7 @@ func runChain(t *testing.T, run *vh.Run, r *vh.Rand, c *Case, exhaustiveLimit in
 				kinds = append(kinds, o.Kind)
 			}
 			run.Count("recorded_op_shapes", strings.Join(kinds, ","))
-			run.Add(fmt.Sprintf("COps %s %s %s\n  %s", vh.Str(target), vh.Str(tmp), coqBytes(data), coqOps(seg)), one, true)
+			addCase(run, fmt.Sprintf("COps %s %s %s\n  %s", vh.Str(target), vh.Str(tmp), coqBytes(data), coqOps(seg)), one, true)
 			if gi == len(segs)-1 && ferr == nil && !bytes.Equal(data, final) {
 				run.Violate("file-differs-from-written-bytes", target+": the snapshot file does not hold the bytes written on the snapshot path", one)
 			}
